@@ -1185,7 +1185,7 @@ const COLORS: [RGBA; 16] = [
     RGBA::new(255, 255, 255, 255),
 ];
 
-fn sgr_color<'a>(mut cmds: impl Iterator<Item = &'a [u8]>) -> Option<RGBA> {
+fn sgr_color<'a>(mut cmds: impl Iterator<Item = &'a [u8]>, colon: bool) -> Option<RGBA> {
     match number_decode(cmds.next()?)? {
         5 => {
             // color from 256 color palette
@@ -1210,8 +1210,21 @@ fn sgr_color<'a>(mut cmds: impl Iterator<Item = &'a [u8]>) -> Option<RGBA> {
         2 => {
             // true color
             //
-            // It can contain either three or four components
-            // in the case of four first component is ignored
+            // When separated by semicolons it has exactly three components,
+            // following parameters belong to the next attribute.
+            if !colon {
+                let r = number_decode(cmds.next()?)?;
+                let g = number_decode(cmds.next()?)?;
+                let b = number_decode(cmds.next()?)?;
+                return Some(RGBA::new(
+                    u8::try_from(r).ok()?,
+                    u8::try_from(g).ok()?,
+                    u8::try_from(b).ok()?,
+                    255,
+                ));
+            }
+            // When separated by colons it can contain either three or four
+            // components in the case of four first component is ignored
             match [
                 cmds.next().and_then(number_decode),
                 cmds.next().and_then(number_decode),
@@ -1244,9 +1257,9 @@ fn sgr_face(data: &[u8]) -> FaceModify {
         let args_empty = args.size_hint().0 == 0;
         let mut sgr_color_thunk = || {
             if args_empty {
-                sgr_color(&mut groups)
+                sgr_color(&mut groups, false)
             } else {
-                sgr_color(&mut args)
+                sgr_color(&mut args, true)
             }
         };
         match cmd {
